@@ -25,7 +25,7 @@ def _resolve(fl: Flow, site: Site, e: ast.expr) -> ast.expr:
     e = site.expand(e)
     for _ in range(3):
         sub = {}
-        for nm in norm.free_names(e):
+        for nm in sorted(norm.free_names(e)):
             defs = fl.alldefs.get(nm, [])
             if len(defs) == 1 and not (isinstance(defs[0], ast.Call) and isinstance(defs[0].func, ast.Name) and defs[0].func.id.startswith("__")):
                 sub[nm] = defs[0]
